@@ -525,6 +525,15 @@ func (t *thrModel) instanceSizeMatchesFilter() string {
 					matched = true
 				}
 			}
+			// (a') both read the same field of one roster object through its getters:
+			// size = r.size() (= len(r.nodes)), allowedList = r.senders() (= f(r.nodes))
+			if !matched {
+				if r1, f1 := getterOfField(size, true); f1 != nil {
+					if r2, f2 := getterOfField(al, false); f2 == f1 && sameObjectValue(r1, r2) {
+						matched = true
+					}
+				}
+			}
 			// (b) size is the expected-count argument of the Synchronize delivering the member list
 			if !matched {
 				alv := al
@@ -732,4 +741,82 @@ func ctorLiteral(v ssa.Value) (alloc *ssa.Alloc, via *ssa.Call, resolve func(ssa
 		return x
 	}
 	return a, cl, resolve
+}
+
+// getterOfField: v is a call of a one-block method of an own struct type that returns len(recv.f)
+// (wantLen) or g(recv.f) for a one-argument function g (!wantLen): the receiver passed and the field f.
+func getterOfField(v ssa.Value, wantLen bool) (ssa.Value, *types.Var) {
+	cl, ok := stripNoParam(v).(*ssa.Call)
+	if !ok {
+		return nil, nil
+	}
+	g := cl.Call.StaticCallee()
+	if g == nil || len(g.Blocks) != 1 || g.Signature.Recv() == nil || len(cl.Call.Args) < 1 || !ownPkgPath(pkgPathOf(g)) {
+		return nil, nil
+	}
+	var ret *ssa.Return
+	for _, in := range g.Blocks[0].Instrs {
+		switch x := in.(type) {
+		case *ssa.Return:
+			ret = x
+		case *ssa.Store:
+			if _, isLocal := x.Addr.(*ssa.Alloc); !isLocal {
+				return nil, nil // (the spill of the by-value receiver into its cell is fine)
+			}
+		case *ssa.MapUpdate, *ssa.Send, *ssa.Go, *ssa.Defer:
+			return nil, nil
+		}
+	}
+	if ret == nil || len(ret.Results) != 1 {
+		return nil, nil
+	}
+	rv := ret.Results[0]
+	var inner ssa.Value
+	if wantLen {
+		x, isLen := lenOperand(rv)
+		if !isLen {
+			return nil, nil
+		}
+		inner = x
+	} else {
+		c2, isC := rv.(*ssa.Call)
+		if !isC || len(c2.Call.Args) != 1 || c2.Call.StaticCallee() == nil {
+			return nil, nil
+		}
+		inner = c2.Call.Args[0]
+	}
+	noParamLook++
+	si := strip(inner)
+	noParamLook--
+	po, fld := paramObjectField(si)
+	if po == nil || po != g.Params[0] {
+		if b, f, isF := fieldLoad(si); isF {
+			noParamLook++
+			sb := strip(b)
+			noParamLook--
+			if sb == ssa.Value(g.Params[0]) {
+				return cl.Call.Args[0], f
+			}
+		}
+		return nil, nil
+	}
+	return cl.Call.Args[0], fld
+}
+
+// sameObjectValue: two struct values that are reads of one variable which is only assigned once (a
+// by-value parameter spilled to a cell, a local), or the same SSA value.
+func sameObjectValue(a, b ssa.Value) bool {
+	if a == nil || b == nil {
+		return false
+	}
+	if sameValue(a, b) {
+		return true
+	}
+	la, ok1 := stripNoParam(a).(*ssa.UnOp)
+	lb, ok2 := stripNoParam(b).(*ssa.UnOp)
+	if !ok1 || !ok2 || la.Op != token.MUL || lb.Op != token.MUL || la.X != lb.X {
+		return false
+	}
+	cell, ok := la.X.(*ssa.Alloc)
+	return ok && cellFieldsOnlyRead(cell)
 }
